@@ -564,6 +564,9 @@ class _FuncAnalysis:
                 owner = self.ev(t.value.value)
                 if self.f.name not in CONTAINER_LAZY:
                     self.mutate(owner, stmt, "container part written")
+            elif isinstance(t.value, ast.Name) and base.kind in (PY, LIST, UNK) and v.roots and v.kind in (ELEM, LXML, LIST, UNK):
+                # a local collection (dict / list) that is handed tree values keeps them: `todo[key] = container`
+                self.env[t.value.id] = Val(LIST, base.roots | v.roots)
             return
 
     # ---------------------------------------------------------------- effects
@@ -951,6 +954,8 @@ class _FuncAnalysis:
         if recv.kind == XP:
             return PYV
         if recv.kind == LIST:
+            if m in ("values", "items", "copy"):
+                return recv  # the members of a local collection of tree values
             if m in ("append", "extend", "insert", "add") and isinstance(fn.value, ast.Name) and args:
                 a = args[-1]
                 if a.roots:
